@@ -282,7 +282,7 @@ def main(argv):
         suffix = " no-failing-input-found"
         if u == "bounded":
             rec.update(engine="bounded native check on the real crate (--cfg engeom_verif)", failing_clause_and_input=e["failing"], bound=e["bound"],
-                       replay="%s bounded %s" % (os.path.join(VERIF, ".cache", "replay-target", "debug", "vreplay"), prop))
+                       replay="%s bounded %s" % (os.path.join(VERIF, ".cache", "replay-target", "debug", "vreplay_main"), prop))
             suffix = ""
         elif u.startswith("kani:"):
             rec.update(engine="kani", harness=e["harness"], failed_check=e.get("failed_check"), counterexample=e.get("counterexample"),
